@@ -296,3 +296,10 @@ func Canon(s Set) bool { return canon(s) }
 
 //@ pure
 func InSet(s Set, q uint32) bool { return inSet(s, q) }
+
+// ParseSet inserts every parsed item as a range that satisfies the
+// representation invariant (what parseNumRange yields).
+//
+//@ func ParseSet(set string) (s Set, err error)
+//@   props C15:callsite
+//@   callsite Set.AddRange(ps *Set, a uint32, b uint32) requires validRange(Range{a, b})
